@@ -2,7 +2,7 @@
    Only statements; each is closed by a lemma of Proofs/ScipyProblem.v.  The model
    (Model/ScipyProblem.v) mirrors NormalizedConstraints, get_masked_linear_constraints,
    _initialize_bounds, _parse_options, validate_supported_constraints and the kwargs of start(). *)
-From Coq Require Import QArith Qabs List Bool String ZArith.
+From Coq Require Import QArith Qabs List Bool String ZArith Lia.
 From Ropt Require Import Base.Num Base.ListX Gen.Generated Gen.Gen_C08 Model.ScipyProblem Proofs.ScipyProblem.
 Import ListNotations.
 Open Scope Q_scope.
@@ -21,6 +21,36 @@ Theorem C08_feasible_iff : forall af bs cs,
   List.length bs = List.length cs -> Forall (fun b => sane (fst b) (snd b)) bs ->
   (all_in_bounds bs cs <-> rows_sat af (normalize_bounds af bs) cs).
 Proof. exact feasible_iff. Qed.
+
+(* END TO END.  For every problem the plug-in accepts ([construct p = Some h]: bounds, the masked linear
+   constraints, the normalised rows of the constraint dicts or the LinearConstraint / NonlinearConstraint
+   objects of differential_evolution), every value vector [c] of the non-linear constraints and every
+   vector [xf] of free variables: the point passes everything that is handed to SciPy
+   ([handed_feasible]: Bounds, and "= 0" / ">= 0" on every normalised row, or the constraint objects) iff
+   it satisfies the configured problem ([config_feasible]: the bounds of the free variables, the retained
+   linear rows on the completed vector, the non-linear bounds).  Both sides are the definitions the
+   correspondence checker evaluates on the real plug-in's output.
+   [wf_problem]: no lower bound is +inf / no upper bound is -inf, finite bound pairs are equal or differ by
+   at least the code's equality tolerance ([sane]), the linear constraint arrays have consistent shapes;
+   [wf_point]: the mask, x0 and xf have consistent lengths and c has one entry per non-linear constraint. *)
+Theorem C08_handed_equiv_configured : forall p h c xf,
+  construct p = Some h -> wf_problem p -> wf_point p c xf ->
+  handed_feasible h c xf = config_feasible p c xf.
+Proof. exact handed_equiv_configured. Qed.
+
+(* the same with the decidable form of the hypotheses, which the correspondence checker evaluates on every
+   generated case: every case it accepts lies in the domain of the theorem *)
+Theorem C08_handed_equiv_configured_checked : forall p h c xf,
+  construct p = Some h -> wf_problemb p = true -> wf_pointb p c xf = true ->
+  handed_feasible h c xf = config_feasible p c xf.
+Proof. exact handed_equiv_configured_b. Qed.
+
+(* the dict path on its own: the rows built from any list of (sane) bound pairs, evaluated by the
+   executable set_constraints on the raw values, are all satisfied iff every raw value is within its bounds *)
+Theorem C08_rows_equiv_bounds : forall bs raw,
+  List.length bs = List.length raw -> Forall (fun b => sane (fst b) (snd b)) bs ->
+  rows_okb (normalize_bounds false bs) raw = bounds_okb (map fst bs) (map snd bs) raw.
+Proof. exact rows_okb_bounds. Qed.
 
 (* the executable normalisation (set_constraints) computes exactly those row values ... *)
 Theorem C08_norm_values_spec : forall rows cs vs,
@@ -159,8 +189,36 @@ Example C08_example :
                p_types := None; p_parallel := false; p_tol := None |} = None.
 Proof. vm_compute. repeat split; reflexivity. Qed.
 
+(* the hypotheses of C08_handed_equiv_configured hold for the example problem and its test points *)
+Example C08_example_wf :
+  let p := {| p_method := "slsqp"; p_mask := Some [true; false; true]; p_x0 := [1; 2; 3];
+              p_lower := [Fin 0; NInf; NInf]; p_upper := [PInf; PInf; Fin 5];
+              p_nl := Some [(Fin (-1), Fin 2); (Fin 4, Fin 4)];
+              p_lin := Some {| l_A := [[1; 0; 2]; [1; 1; 0]]; l_lb := [NInf; Fin 0]; l_ub := [Fin 7; Fin 1] |};
+              p_options := ListOpt ["x"%string]; p_max_iter := Some 9%Z; p_output_dir := false; p_types := None;
+              p_parallel := false; p_tol := None |} in
+  wf_problem p /\ wf_point p [0; 4] [1; 3] /\ wf_point p [0; 4] [1; 4].
+Proof.
+  cbn zeta. unfold wf_problem, wf_point, wf_lin. cbn [p_lower p_upper p_nl p_lin p_mask p_x0].
+  assert (T : forall a b : Q, 1 <= Qabs (b - a) -> a == b \/ eq_tol <= Qabs (b - a)).
+  { intros a b H. right. apply (Qle_trans _ 1); [|exact H]. unfold eq_tol, norm_eq_tol, Q_, Qle. cbn. lia. }
+  assert (M : forall m : list bool, Some [true; false; true] = Some m ->
+              List.length m = 3%nat /\ 2%nat = count_true m) by (intros m E; injection E as <-; split; reflexivity).
+  split; [|split; split; [exact M | reflexivity | exact M | reflexivity]].
+  split; [repeat constructor; discriminate|]. split; [repeat constructor; discriminate|]. split.
+  - intros bs E. injection E as <-. constructor; [|constructor; [|constructor]]; cbn [fst snd sane].
+    + apply T. unfold Qle. cbn. lia.
+    + left. reflexivity.
+  - intros lc E. injection E as <-. cbn [l_lb l_ub l_A lin_pairs combine]. repeat split.
+    + repeat constructor.
+    + constructor; [exact I|]. constructor; [|constructor]. cbn [fst snd sane]. apply T. unfold Qle. cbn. lia.
+Qed.
+
 Print Assumptions C08_feasible_iff_row.
 Print Assumptions C08_feasible_iff.
+Print Assumptions C08_handed_equiv_configured.
+Print Assumptions C08_handed_equiv_configured_checked.
+Print Assumptions C08_rows_equiv_bounds.
 Print Assumptions C08_norm_values_spec.
 Print Assumptions C08_values_and_jacobian_aligned.
 Print Assumptions C08_jacobian_sign.
